@@ -195,7 +195,7 @@ class SchemaField:
             return "max legth exceeded"
         if subset and value not in subset:
             return f"out of subset: {subset}"
-        if alpha_num and re.search(r"\W+", value):
+        if alpha_num and re.search(r"[^0-9A-Za-z]", value):
             return "value contains non alphanumeric letters"
 
     @staticmethod
